@@ -38,6 +38,7 @@ def split_passes(stream):
 
 class C09(Base):
     ID = "C09"
+    TECHNIQUE = ('deterministic simulation with fault injection: multi-tenant worlds, seeded pass counts, observer reads at seeded instants, overrun next(), for-loop driving; history checked against the documented pass table and flag timeline')
     EXPECTED_PROBES = ('obs_before_first_next', 'obs_after_exhaustion', 'pass2')
     SIZES = {"quick": (32, 24), "thorough": (128, 64)}
     RULE = ("worlds of 1-3 (thorough: 1-6) interleaved schedules; per slot "
@@ -169,6 +170,7 @@ class C09(Base):
 
 class C11(Base):
     ID = "C11"
+    TECHNIQUE = ('deterministic simulation with observer injection: uses_storage_type queried at seeded instants in multi-tenant worlds, compared with the storages the executed stream touches')
     EXPECTED_PROBES = ('obs_before_first_next', 'obs_after_exhaustion')
     SIZES = {"quick": (32, 24), "thorough": (128, 64)}
     RULE = ("worlds of 1-3 interleaved schedules; uses_storage_type queried "
@@ -552,6 +554,7 @@ HELPERS = ("optimal_steps_binomial", "optimal_steps_mixed",
 
 class C15(Base):
     ID = "C15"
+    TECHNIQUE = ('deterministic simulation: multi-tenant worlds under a seeded cooperative scheduler and a seeded pre-emptive scheduler (threads released one at a time at sys.settrace line events), streams compared with pristine-process baselines')
     EXPECTED_PROBES = ('c15_baselines', 'c15_observer_pairs', 'e3_worlds')
     FORK_PER_RUN = True
     SIZES = {"quick": (32, 24), "thorough": (128, 64)}
